@@ -67,6 +67,90 @@ def rec_call_on_prev(v, t, fname, variant):
     return is_self_field(t[3][0], variant, "prev")
 
 
+POSITIONAL = {"last", "nth", "next", "next_back", "min", "max"}
+
+
+def _tells_key_from_index(crate, fn_path, depth=0):
+    """does the function / closure distinguish a Key step from an Index step (its own match, or a helper it calls)"""
+    b = next((x for x in crate.bodies if x.path == fn_path), None)
+    if b is None or depth > 3:
+        return None
+    v = View(b)
+    for bb in sorted(v.reach):
+        info = v.switch_info(bb)
+        if info and info["kind"] == "discr" and (info.get("adt") or "").endswith("ValuePointerRef"):
+            kt = v.variant_target(info, "Key")
+            it = v.variant_target(info, "Index")
+            if kt is not None and kt != it:
+                return True
+    for bb, c in v.calls():
+        if c.fn is not None and c.krate == "deserr" and c.path != fn_path:
+            r = _tells_key_from_index(crate, c.path, depth + 1)
+            if r:
+                return True
+    return False
+
+
+def position_before_filter(crate, b, fname, rule):
+    """An iterator formulation of first_field / last_field: a step that is picked by its position (`.last()`, `.next()`, `.nth(k)`)
+    from an iterator over *all* steps and only then asked whether it is a key is the outermost / innermost step, not the
+    outermost / innermost key: index steps are not ignored."""
+    import inline
+    import coll
+    eb = inline.expand_local_helpers(crate, b)
+    v = View(eb)
+    out = []
+    for bb, c in v.calls():
+        if c.fn is None or not c.trait or erase_generics(c.trait) not in ("std::iter::Iterator", "std::iter::DoubleEndedIterator") or c.name not in POSITIONAL:
+            continue
+        if any(bb in body for _h, body in v.loops()):
+            continue     # stepping through the items in a loop is iteration, not selection
+        # adaptors between the source and the selection, with the functions they are given
+        filtered = None
+        t = v.origin_call(bb)
+        cur = strip_refs(t[3][0]) if t[3] else None
+        hops = 0
+        while cur is not None and hops < 12:
+            hops += 1
+            al = [strip_refs(a) for a in v.alts(cur)] or [cur]
+            cur = al[0] if len(al) == 1 else None
+            if cur is None or cur[0] != "call":
+                break
+            cc = v.callee(cur[1])
+            if cc is None or cc.fn is None:
+                break
+            if cc.trait and erase_generics(cc.trait) == "std::iter::Iterator" and cc.name in ("filter", "filter_map", "skip_while", "flat_map", "map_while", "take_while", "find_map"):
+                for a in cur[3][1:]:
+                    a = strip_refs(a)
+                    fp = None
+                    if a[0] == "agg" and a[1] == "closure" and len(a) > 3:
+                        fp = a[3]
+                    elif a[0] == "fnconst":
+                        fp = a[1] if len(a) > 1 else None
+                    if fp is not None:
+                        r = _tells_key_from_index(crate, fp)
+                        if r:
+                            filtered = True
+                        elif r is None and filtered is None:
+                            filtered = "unknown"
+            cur = strip_refs(cur[3][0]) if cur[3] else None
+        if filtered is True or filtered == "unknown":
+            continue
+        # is the picked step asked for its key afterwards?
+        asked = False
+        for bb2, c2 in v.calls():
+            if bb2 == bb or c2.fn is None:
+                continue
+            for a in v.origin_call(bb2)[3]:
+                a = strip_refs(a)
+                fp = a[3] if (a[0] == "agg" and a[1] == "closure" and len(a) > 3) else (a[1] if a[0] == "fnconst" and len(a) > 1 else None)
+                if fp is not None and _tells_key_from_index(crate, fp) and term_mentions(v.origin_call(bb2), lambda x: x[0] == "call" and x[1] == bb):
+                    asked = True
+        if asked:
+            out.append(fnd(rule, v, "%s picks a step by its position (Iterator::%s over all steps) and only then looks whether it is a key: index steps are not skipped" % (fname, c.name), bb))
+    return out
+
+
 def run(ctx):
     res = PropResult("C19")
     res.level = "other"
@@ -118,7 +202,8 @@ def run(ctx):
             if not v.loops() and not is_recursive(v, fname) and not local_calls:
                 res.add(rule, 3, [fnd(rule, v, "%s examines a bounded number of steps (no loop, no recursion): keys behind a longer run of index steps are not found" % fname)])
             else:
-                res.add(rule, 3, [und(rule, v, "%s is not written as a recursion over the pointer's variant: its table is not extracted (undecided)" % fname)])
+                pf = position_before_filter(crate, b, fname, rule)
+                res.add(rule, 3, pf or [und(rule, v, "%s is not written as a recursion over the pointer's variant: its table is not extracted (undecided)" % fname)])
             continue
         arms = {}
         for var in ("Origin", "Key", "Index"):
